@@ -219,7 +219,7 @@ def scen_net(env, blocks, ninputs, nburst, feedback=None, first_target=None):
             1 + env.choose(nburst, f'burst_len{rnd}')
         env.note('burst-empty' if n == 0 else ('burst-multi' if n > 1 else 'burst-single'))
         for i in range(n):
-            targets = [x for x in range(ninputs) if not feedback or x != feedback[1]]
+            targets = list(range(ninputs))      # the feedback input may be written from outside too
             if first_target is not None and rnd == 0 and i == 0:
                 if first_target not in targets:
                     return
@@ -229,15 +229,20 @@ def scen_net(env, blocks, ninputs, nburst, feedback=None, first_target=None):
             v = env.int(f'burst{rnd}_{i}_value')
             ins[k].event('put', value=v)
         before = [i.output for i in ins]
+        cj_before = cbs[feedback[0]].output if feedback else None
         err = drv.run_to_idle()
         env.check('no-error', err is None, info=lambda: err)
         if err:
             return
         if feedback:
-            env.check('feedback-settled', bool(eq_(ins[feedback[1]].output, cbs[feedback[0]].output))
-                      if env.holds(eq_(ins[feedback[1]].output, cbs[feedback[0]].output)) else False,
-                      info=lambda: (ins[feedback[1]].output, cbs[feedback[0]].output))
-            if ins[feedback[1]].output is not before[feedback[1]]:
+            # the CBlock's event (sent while settling) is the last writer iff the CBlock changed in this burst;
+            # otherwise the input keeps what the burst wrote / what it had
+            cj_after = cbs[feedback[0]].output
+            fb_in = ins[feedback[1]].output
+            changed = Not_(eq_(cj_before, cj_after))
+            want = Or_(And_(changed, eq_(fb_in, cj_after)), And_(Not_(changed), eq_(fb_in, before[feedback[1]])))
+            env.check('feedback-settled', want, info=lambda: (cj_before, cj_after, before[feedback[1]], fb_in))
+            if env.possible(changed):
                 env.note('feedback-changed-sblock')
         check_idle(env, 'idle-consistent', blocks, ins, cbs, prev_cmp)
     drv.close()
